@@ -84,14 +84,10 @@ Definition handle_fs (s : state) (r : req) : state * resp :=
         | None => (s, err 404)
         | Some bk =>
             let cur := match cursor with Some c => c | None => [] end in
-            let '(found, prefixes, more) := list_walk delim cur prefix (Z.to_nat m) (fs_entries bk) in
+            let '(found, prefixes, more, last) := list_walk delim cur prefix (Z.to_nat m) (fs_entries bk) in
             let items := flat_map (fun n => match alookup n bk with
                                             | Some o => [view b n o] | None => [] end) found in
-            let next := if more then match rev items with
-                                     | v :: _ => Some (v_name v)
-                                     | [] => None
-                                     end
-                        else None in
+            let next := if more then last else None in
             (s, mkResp 200 (BList items prefixes next))
         end
       end
